@@ -7,6 +7,7 @@ mod fam_cipher;
 mod fam_clicodec;
 mod fam_clihostile;
 mod fam_clitrunc;
+mod fam_chunklist;
 mod fam_codec;
 mod fam_edit;
 mod fam_extract;
@@ -76,6 +77,7 @@ fn main() {
         "roundtrip" => fam_round::roundtrip(&mut ctx),
         "foreign" => fam_foreign::foreign(&mut ctx),
         "cli-truncate" => fam_clitrunc::cli_truncate(&mut ctx),
+        "chunk-list" => fam_chunklist::chunk_list(&mut ctx),
         "cli-hostile" => fam_clihostile::cli_hostile(&mut ctx),
         "sched" => fam_sched::sched(&mut ctx),
         "fault" => fam_fault::fault(&mut ctx),
